@@ -75,6 +75,13 @@ class V(object):
     def f(self, hint="f"):
         return self.ctx.real(self._n(hint), -180, 180)
 
+    def q(self, hint="q", hi=2 ** 20):
+        """a non-negative multiple of 0.25 (exact in single precision, which the schema's float fields have)"""
+        n = self.ctx.int(self._n(hint + "_quarters"), 0, hi)
+        if H.sym(self.ctx):
+            return SymReal(z3.ToReal(core.toint(n)) / 4)
+        return n / 4.0
+
     def flag(self, hint="flag"):
         return self.ctx.flag(self._n(hint))
 
@@ -177,7 +184,7 @@ def build(ctx, v, kind, which, depth):
         return A["msg"](contact=A["contact"](v.s("name"), v.b("vcard"), ci()))
     if kind == "location":
         return A["msg"](location=A["loc"](v.f("lat"), v.f("lon"), _opt(which, "name", v.s), _opt(which, "address", v.s), _opt(which, "url", v.s),
-                                           _opt(which, "duration", lambda: v.n("dur")), _opt(which, "accuracy_in_meters", lambda: v.n("acc")), _opt(which, "speed_in_mps", v.f),
+                                           _opt(which, "duration", lambda: v.q("dur")), _opt(which, "accuracy_in_meters", lambda: v.n("acc")), _opt(which, "speed_in_mps", v.f),
                                            _opt(which, "degrees_clockwise_from_magnetic_north", lambda: v.n("deg")), _opt(which, "axolotl_sender_key_distribution_message", v.b),
                                            _opt(which, "jpeg_thumbnail", v.b)))
     if kind == "extended_text":
@@ -337,6 +344,28 @@ def h_roundtrip_with_skdm(ctx, kind):
     return attrs_obs(kind + "+sender_key_distribution", sent, got)
 
 
+def h_retry_after_refusal(ctx, kind, quoted):
+    """the application hands over a message with a value the schema refuses (a negative width), gets the error, corrects the value and
+    sends the SAME objects again (or quotes the same object in a new reply): the second attempt is serialised in full"""
+    C, c = conv(ctx)
+    v = V(ctx)
+    A = attr_mods()
+    sent = build(ctx, v, kind, "none", 0)
+    media = getattr(sent, kind)
+    good = media.width
+    outer = A["msg"](extended_text=A["ext"](v.s("reply"), None, None, None, None, None, A["ctxinfo"](stanza_id=v.s("sid", True), participant=v.s("p", True), quoted_message=sent))) if quoted else sent
+    media.width = -1
+    refused = False
+    try:
+        c.message_to_protobytes(outer)
+    except (ValueError, TypeError):
+        refused = True
+    media.width = good
+    got = c.protobytes_to_message(c.message_to_protobytes(outer))
+    inner = got.extended_text.context_info.quoted_message if quoted and got.extended_text is not None and got.extended_text.context_info is not None else (None if quoted else got)
+    return [("the value the schema cannot carry is refused", refused)] + attrs_obs(kind + " (second attempt)", sent, inner)
+
+
 def h_two_messages(ctx):
     """two messages composed one after the other in one process: the application adds a mention to the first one's context IN PLACE
     (list append), then composes a second message without mentions: nothing of the first leaks into the second"""
@@ -460,6 +489,9 @@ def cases(tier):
     cs = [dict(name="stub-vs-real-protobuf", fn=h_stub_vs_real)]
     cs += [dict(name="entity[%s,changed after first serialisation]" % k, fn=h_entity_reserialise, args=(k,)) for k in ("text", "extended_text")]
     cs.append(dict(name="two-messages[mention added in place, then a fresh message]", fn=h_two_messages))
+    for kind in ("image", "video"):
+        for quoted in (False, True):
+            cs.append(dict(name="retry-after-refusal[%s,%s]" % (kind, "quoted in a reply" if quoted else "top level"), fn=h_retry_after_refusal, args=(kind, quoted)))
     for kind, opts in sorted(OPTIONALS.items()):
         fams = ["none", "all"] + opts
         for w in fams:
